@@ -192,6 +192,8 @@ pub fn is_valid_path(path: &str) -> bool {
             ':' if separators == 1 => {
                 separators = 2;
             }
+            // A lone `:` that isn't followed by another `:`
+            _ if separators == 1 => return false,
             // The start of an identifier
             c if separators % 2 == 0 && is_xid_start(c) => {
                 separators = 0;
